@@ -1,6 +1,7 @@
 package main
 
 import (
+	"os"
 	"fmt"
 	"math/big"
 	"sort"
@@ -891,6 +892,12 @@ func (o *dexOracle) afterC19(w *World, ev *Event, res Result) *Violation {
 	for _, c := range need {
 		have := w.Bal(mod, c.Denom).Sub(w.UnsolicitedAmt(mod, c.Denom))
 		if have.LT(c.Amount) {
+			if os.Getenv("VERIF_DEBUG_C19") != "" {
+				fmt.Printf("C19DEBUG h=%d rewards bal=%s unsolicited=%s\n", w.Height(), w.App.BankKeeper.GetAllBalances(ctx, mod), w.Unsolicited[mod.String()])
+				for _, g := range rk.GetAllGauges(ctx) {
+					fmt.Printf("  gauge %d app=%d swapfee=%v active=%v deposit=%s distributed=%s trig=%d/%d meta=%v\n", g.Id, g.AppId, g.ForSwapFee, g.IsActive, g.DepositAmount, g.DistributedAmount, g.TriggeredCount, g.TotalTriggers, g.GetLiquidityMetaData())
+				}
+			}
 			return &Violation{Property: "C19", OracleID: "c19.custody", Signature: "less" + ctxTag(ev),
 				Detail: fmt.Sprintf("rewards module holds %s %s (net of unsolicited) but active gauges / programs still owe %s, after %s", have, c.Denom, c.Amount, ev.Tag)}
 		}
